@@ -13,7 +13,7 @@ from vkit.ob import Ob
 import vkit.stubs  # noqa: F401
 
 META = {
-    'explanation': 'A fault is planted at one of 11 evaluation sites (top-level callable, tuple step, dict value, list element '
+    'explanation': 'A fault is planted at one of 14 evaluation sites (user code behind T.attr, T[key] and a string-path attribute; top-level callable, tuple step, dict value, list element '
                    'chosen by a symbolic threshold, Coalesce branch, T method call, Invoke argument, Check validator, Fold op, '
                    'Match predicate, nested glom) raising one of 16 exception classes (builtins with 0-5 args, user classes with '
                    'attributes, keyword-only and arity-changing constructors, GlomError subclasses with and without their own '
@@ -22,9 +22,9 @@ META = {
                    'with the table in the property statement. A second family plants glom\'s own failures and checks the '
                    'documented GlomError subtype.',
     'bounds': {
-        'quick': {'sites': 11, 'exception classes': 16, 'keyword combinations': 8, 'exception arguments / thresholds': 'unbounded symbolic ints',
+        'quick': {'sites': 14, 'exception classes': 18, 'keyword combinations': 17, 'exception arguments / thresholds': 'unbounded symbolic ints',
                   'list length': '<= 3'},
-        'thorough': {'sites': 11, 'exception classes': 16, 'keyword combinations': 10},
+        'thorough': {'sites': 14, 'exception classes': 18, 'keyword combinations': 17},
     },
     'stubs': ['S2 traceback.format_exc constant (formatting is not the subject; C05 runs the real one)', 'S4 state reset'],
     'outside_claim': ['exceptions raised while *constructing* a spec', 'translation sites documented by glom: a Check validator '
@@ -123,7 +123,7 @@ def fault_pair(e1: int, e2: int, site1: int, site2: int, kwi: int, a: int) -> bo
     del box[:]
     t2, s2 = make_site(site2, mk(second), 0)
     kw = dict(KW[kwi])
-    if 'default' in kw:
+    if kw.get('default') == 'D':
         kw['default'] = DEFAULT_OBJ
     if kw.get('skip_exc') == 'MYBASE':
         kw['skip_exc'] = MyBase
@@ -195,8 +195,29 @@ def make_exc(k, a):
     return LookupError(a, 'x')
 
 
-NSITE = 11
-SITE_NAMES = ['top', 'tuple2', 'dictval', 'list', 'coalesce', 'tcall', 'invoke', 'check', 'fold', 'matchpred', 'nested']
+NSITE = 14
+SITE_NAMES = ['top', 'tuple2', 'dictval', 'list', 'coalesce', 'tcall', 'invoke', 'check', 'fold', 'matchpred', 'nested',
+              'tattr', 'titem', 'pathattr']
+
+
+class _Prop:
+    """user code behind an attribute access"""
+    def __init__(self, raiser):
+        self._raiser = raiser
+
+    @property
+    def prop(self):
+        return self._raiser()
+
+
+class _Item:
+    """user code behind an item access"""
+    def __init__(self, raiser):
+        self._raiser = raiser
+
+    def __getitem__(self, k):
+        return self._raiser()
+
 
 
 def make_site(site, raiser, thr):
@@ -223,13 +244,20 @@ def make_site(site, raiser, thr):
         return [1, 2], Fold(T, init=int, op=lambda acc, v: f(v))
     if site == 9:
         return 1, Match(f)
+    if site == 11:
+        return _Prop(raiser), T.prop
+    if site == 12:
+        return _Item(raiser), T['k']
+    if site == 13:
+        return _Prop(raiser), 'prop'
     return 1, (lambda t: glom(t, f))
 
 
 KW = [{}, {'default': 'D'}, {'skip_exc': KeyError}, {'default': 'D', 'skip_exc': Exception},
       {'default': 'D', 'skip_exc': (ValueError, OSError)}, {'default': 'D', 'skip_exc': ()}, {'glom_debug': True},
       {'default': 'D', 'glom_debug': True}, {'default': 'D', 'skip_exc': GlomError}, {'default': 'D', 'skip_exc': LookupError},
-      {'default': 'D', 'skip_exc': 'MYBASE'}, {'default': 'D', 'skip_exc': BaseException}, {'skip_exc': 'MYBASE'}]
+      {'default': 'D', 'skip_exc': 'MYBASE'}, {'default': 'D', 'skip_exc': BaseException}, {'skip_exc': 'MYBASE'},
+      {'skip_exc': ()}, {'default': None, 'skip_exc': ()}, {'default': 0}, {'default': '', 'skip_exc': Exception}]      # explicit but falsy
 DEFAULT_OBJ = ['the default object']
 
 
@@ -241,15 +269,19 @@ def fault_matrix(site: int, exc: int, kwi: int, a: int, thr: int, xs: List[int])
         if a is OUT:
             return True
 
+    # access sites: the engine runs properties / __getitem__ behind its own getattr model with tracing off, so the
+    # exception object (symbolic args) is built beforehand and only raised there
+    prebuilt = [make_exc(exc, a)] if site in (11, 12, 13) else []
+
     def raiser():
-        e = make_exc(exc, a)
+        e = prebuilt[0] if prebuilt else make_exc(exc, a)
         box.append(e)
         raise e
     target, spec = make_site(site, raiser, thr)
     if site == 3:
         target = xs
     kw = dict(KW[kwi])
-    if 'default' in kw:
+    if kw.get('default') == 'D':
         kw['default'] = DEFAULT_OBJ
     if kw.get('skip_exc') == 'MYBASE':
         kw['skip_exc'] = MyBase
@@ -294,6 +326,10 @@ def fault_matrix(site: int, exc: int, kwi: int, a: int, thr: int, xs: List[int])
         origin_cls, translated = MatchError, True
     elif site == 4 and isinstance(o, ArithmeticError):
         origin_cls, translated = CoalesceError, True
+    elif (site == 11 and isinstance(o, AttributeError)) or (site == 12 and isinstance(o, (KeyError, IndexError, TypeError))) or site == 13:
+        # an access step: the classes documented as "could not access" are glom's own PathAccessError, everything else
+        # raised by the user code behind T.attr / T[key] keeps its class (a string path treats every Exception as a miss)
+        origin_cls, translated = PathAccessError, True
     else:
         origin_cls, translated = type(o), False
     matches = issubclass(origin_cls, skip_exc) if skip_exc != () else False
@@ -346,7 +382,7 @@ def own_failures(which: int, x: int, kwi: int) -> bool:
     ]
     target, spec, cls = cases[which]
     kw = dict(KW[kwi])
-    if 'default' in kw:
+    if kw.get('default') == 'D':
         kw['default'] = DEFAULT_OBJ
     if kw.get('skip_exc') == 'MYBASE':
         kw['skip_exc'] = MyBase
